@@ -359,11 +359,13 @@ func (u *unitCtx) simpleStmt(level int) {
 				fin = "final "
 			}
 			w.S(fin + u.g.sigs[ci].name + " " + name + " = ")
+			u.pending = name // the declared name is in scope inside its own initializer: keep away from it
 			if rapid.Bool().Draw(t, "localInitNew") {
 				u.newExpr(level, 1, ci)
 			} else {
 				w.S("null")
 			}
+			u.pending = ""
 			w.S(";")
 			u.scope = append(u.scope, varInfo{name: name, kind: "local", typ: u.g.sigs[ci].name, cls: ci, final: fin != ""})
 			return
@@ -373,7 +375,9 @@ func (u *unitCtx) simpleStmt(level int) {
 		name := u.freshLocal()
 		typ := rapid.SampledFrom([]string{"int", "String", "boolean", "Object", "long"}).Draw(t, "localPlainType")
 		w.S(typ + " " + name + " = ")
+		u.pending = name
 		u.expr(level, 1)
+		u.pending = ""
 		w.S(";")
 		u.scope = append(u.scope, varInfo{name: name, kind: "local", typ: typ, cls: -1})
 	case 3: // assignment
@@ -400,7 +404,7 @@ func (u *unitCtx) freshLocal() string {
 			}
 		}
 		for _, f := range u.fields {
-			if f.name == name && !u.g.o.NameReuse {
+			if f.name == name && !u.g.o.NameReuse && !u.g.o.ScopedReuse {
 				clash = true
 			}
 		}
@@ -414,13 +418,13 @@ func (u *unitCtx) freshLocal() string {
 func (u *unitCtx) anyVar(ok func(varInfo) bool) (varInfo, bool) {
 	var cands []varInfo
 	for _, v := range u.scope {
-		if ok(v) {
+		if ok(v) && v.name != u.pending {
 			cands = append(cands, v)
 		}
 	}
 	for _, f := range u.fields {
 		if ok(f) {
-			shadowed := false
+			shadowed := f.name == u.pending
 			for _, v := range u.scope {
 				if v.name == f.name {
 					shadowed = true
@@ -516,7 +520,7 @@ func (u *unitCtx) args(level, depth int, lambdaOK bool) {
 		if lambdaOK && rapid.IntRange(0, 9).Draw(t, "lambdaArg") == 0 {
 			u.lambdaN++
 			lv := fmt.Sprintf("lx%d", u.lambdaN)
-			if u.g.o.NameReuse && rapid.Bool().Draw(t, "lambdaReusedName") {
+			if (u.g.o.NameReuse || u.g.o.ScopedReuse) && rapid.Bool().Draw(t, "lambdaReusedName") {
 				// a lambda parameter named like a variable of another method or file
 				lv = u.freshLocal()
 			}
